@@ -92,20 +92,24 @@ func init() {
 			"storage error at the n-th boltz write primitive for n = 1..W (W counted by a dry run through the verif hook), caller error after p operations (p = 0..len), constraint veto at the k-th ProcessPreCommit call (k = 1..K), " +
 			"a rejected store operation (duplicate / missing fk target / validation / restrict) spliced at every position, pre-commit action error (first / middle / last of three); via Db.Update and (a tenth) Db.Batch. " +
 			"Oracle per injection: Db.Update returns non-nil, the store call during which the failure was raised returns non-nil, full-file dump identical to before, zero listener / post-commit / commit-action / tx-complete callbacks, " +
-			"and the body then commits normally with exactly one commit action and tx-complete callback. non-trivial = distinct (failure kind, op kind at the failing position, hook point or veto site) with at least one earlier successful op",
+			"and the body then commits normally with exactly one commit action and tx-complete callback. migration manager cases: Migrate over 1-4 steps, three rounds per database; one step fails through step.SetError (returned version unchanged or advanced), after a rejected store operation, or through a pre-commit action it registered: Migrate must return the error, dump, recorded version and commit-action count unchanged; without a failing step the target version is recorded, the steps ran once each in order, their writes and commit actions are there. " +
+			"context reuse cases: one MutateContext (ordinary or system) carried through 3-6 transactions via Update / Batch, each registering its own pre-commit and commit action and committing or failing (caller error before / after registering, rejected operation, failing pre-commit action): a commit action runs exactly once iff its transaction committed, every action runs only with its own transaction, a later transaction is not failed by an earlier one's pre-commit action. " +
+			"non-trivial = distinct (failure kind, op kind at the failing position, hook point or veto site) with at least one earlier successful op",
 		Assumptions: []string{"storage errors are injected at the boltz write primitives (verif hook), not inside bbolt's commit", "quiescence of asynchronous callbacks is awaited by goroutine-count baseline"},
 		Plan: func(tier core.Tier, seed int64) int {
 			if tier == core.Thorough {
-				return 30000 + c07ValueCases*4
+				return 30000 + c07ValueCases*4 + c07MigCases*4 + c07ReuseCases*8
 			}
-			return 64 + c07ValueCases
+			return 64 + c07ValueCases + c07MigCases + c07ReuseCases
 		},
 		Run: runC07,
 		Promises: func(core.Tier) map[string][]string {
-			return map[string][]string{"unsupported_value": {"top level", "inside a list", "inside a map inside a list", "inside a list inside a map", "last element of a long list", "inside a nested map"}, "failure_kind": {"storage", "caller", "veto", "rejected-op", "precommit", "batch-storage"}, "precommit_registration": {"before-call batch=false", "before-call batch=true"},
+			return map[string][]string{"unsupported_value": {"top level", "inside a list", "inside a map inside a list", "inside a list inside a map", "last element of a long list", "inside a nested map"}, "migration_failure": c07MigFailKinds, "failure_kind": {"storage", "caller", "veto", "rejected-op", "precommit", "batch-storage"}, "precommit_registration": {"before-call batch=false", "before-call batch=true"},
 				"veto_site": {"emps:1:parent=false", "emps:2:parent=false", "emps:3:parent=true", "emps/xt:3:parent=false", "depts:3:parent=false", "emps/ext:3:parent=false", "emps:1:parent=true", "emps:2:parent=true"}}
 		},
-		MinCounters: func(core.Tier) map[string]int64 { return map[string]int64{"injections": 1500, "bodies_committed": 100} },
+		MinCounters: func(core.Tier) map[string]int64 {
+			return map[string]int64{"injections": 1500, "bodies_committed": 100, "migrations_with_a_failing_step": 20, "migrations_completed": 10, "context_reuse_histories": 20}
+		},
 	})
 }
 
@@ -113,6 +117,22 @@ func runC07(c *core.Ctx, idx int) {
 	nEnum := 64
 	if c.Tier == core.Thorough {
 		nEnum = 30000
+	}
+	nVal := c07ValueCases
+	if c.Tier == core.Thorough {
+		nVal = c07ValueCases * 4
+	}
+	nMig := c07MigCases
+	if c.Tier == core.Thorough {
+		nMig = c07MigCases * 4
+	}
+	if idx >= nEnum+nVal+nMig {
+		c07ReuseCase(c, idx-nEnum-nVal-nMig)
+		return
+	}
+	if idx >= nEnum+nVal {
+		c07MigCase(c, idx-nEnum-nVal)
+		return
 	}
 	if idx >= nEnum {
 		c07ValueCase(c, idx-nEnum)
